@@ -394,6 +394,140 @@ fn gen_c04(r: &mut Rng, tier: Tier, job: u64) -> Plan {
     p
 }
 
+/// Framing under TLS: rows from a few bytes up to several hundred KiB (beyond a TLS record and
+/// beyond rustls' 64 KiB send buffer) over a transport with short writes, and in half of the
+/// runs a burst of 1..3 consecutive transport calls failing with Interrupted somewhere after
+/// the TLS handshake. Whatever the server makes of the burst --
+/// retry or give up -- every byte the client gets to see must still be a prefix of the
+/// well-framed conversation.
+fn gen_c04_tls(r: &mut Rng) -> Plan {
+    let mut cmds = Vec::new();
+    let nq = 1 + r.usize_below(3);
+    for _ in 0..nq {
+        let binary = r.coin();
+        let ncols = 1 + r.usize_below(3);
+        let nrows = 1 + r.usize_below(3);
+        let big_at = r.usize_below(ncols);
+        let cols: Vec<ColSpec> = (0..ncols)
+            .map(|_| ColSpec {
+                table: Blob::lit(b"t"),
+                name: Blob::lit(b"c"),
+                coltype: 0xfc,
+                flags: 0,
+            })
+            .collect();
+        let rows: Vec<Vec<Cell>> = (0..nrows)
+            .map(|_| {
+                (0..ncols)
+                    .map(|ci| {
+                        let n = if ci == big_at {
+                            match r.below(6) {
+                                0 => r.usize_below(20),
+                                1 => 16_000 + r.usize_below(800),
+                                2 => 65_000 + r.usize_below(1200),
+                                3 => 130_000 + r.usize_below(2000),
+                                4 => 200_000 + r.usize_below(300_000),
+                                _ => r.usize_below(70_000),
+                            }
+                        } else {
+                            r.usize_below(12)
+                        };
+                        Cell::Bytes(blob_bytes(r, n))
+                    })
+                    .collect()
+            })
+            .collect();
+        let unit = Unit::Rows(RowsUnit {
+            cols,
+            rows,
+            write_row: r.coin(),
+            last_row_ended: true,
+            close: Close::Finish,
+            contra: None,
+            recover: None,
+        });
+        let prog = Program {
+            units: vec![unit],
+            end: End::Implicit,
+            ret_err: None,
+            probe_cells: false,
+        };
+        if binary {
+            let id = 1 + cmds.len() as u32;
+            cmds.push(Cmd {
+                seq: 0,
+                kind: CmdKind::Prepare(Blob::lit(b"p")),
+                act: Act::Prepare(PrepAct::Reply {
+                    id,
+                    params: vec![],
+                    cols: vec![],
+                }),
+            });
+            cmds.push(Cmd {
+                seq: 0,
+                kind: CmdKind::Execute {
+                    stmt: id,
+                    flags: 0,
+                    iters: 1,
+                    block: ParamBlock {
+                        bind: None,
+                        values: vec![],
+                        raw: None,
+                        stale_types: None,
+                    },
+                },
+                act: Act::Program(prog),
+            });
+        } else {
+            cmds.push(Cmd {
+                seq: 0,
+                kind: CmdKind::Query(Blob::lit(b"rows over tls")),
+                act: Act::Program(prog),
+            });
+        }
+    }
+    cmds.push(Cmd {
+        seq: 0,
+        kind: CmdKind::Ping,
+        act: Act::None,
+    });
+    let mut p = Plan::basic(cmds);
+    p.handshake.seq = 1;
+    p.cfg.tls_offered = true;
+    p.cfg.tls = Some(TlsClient {
+        cert: false,
+        v13: r.coin(),
+        seed: r.next(),
+        chain: 0,
+    });
+    p.arrival = if r.coin() { Arrival::lockstep() } else { Arrival::upfront() };
+    p.writes = WriteSched::all();
+    p.writes.accept = match r.below(6) {
+        0 => vec![0],
+        1 => vec![5],
+        2 => vec![1000, 64, 0],
+        3 => vec![4096],
+        4 => vec![16_384 + 5],
+        _ => vec![1 + r.below(40_000) as u32, 0, 3],
+    };
+    if r.coin() {
+        // the TLS handshake takes about 10..20 transport calls; aim behind it
+        let at = 12 + r.below(120);
+        let n = 1 + r.below(3);
+        // only Interrupted: any other error is reported to the shim and by run_on, and what the
+        // client sees after a reported transport error is not judged (C19 judges the report)
+        let kind = IoKind::Interrupted;
+        for i in 0..n {
+            p.faults.push(Fault {
+                at: FaultAt::Op(at + i),
+                kind: FaultKind::Err(kind),
+                persistent: false,
+            });
+        }
+    }
+    p
+}
+
 impl Check for C04 {
     fn id(&self) -> &'static str {
         "C04"
@@ -405,9 +539,10 @@ impl Check for C04 {
         "one run = one QUERY or EXECUTE answered with a message of logical length L = k*(2^24-1)+d, k in {1,2,3}, d in [-6,+6]: a text or binary row assembled from 1..6 cells of varied sizes (so the packet layer sees different write-size sequences), a giant ERR message, or a giant column definition; followed by a short row, the terminator and a sentinel PING; transport accepts everything / 1 byte then all / 7,4096,all / 64 KiB / 1 MiB / 2^24-1 / seeded sizes per write, Interrupted at seeded write ops. Oracle: independent packet reader (header length == payload, nothing left over, messages >= 2^24-1 arrive as maximal packets + one shorter, possibly empty, packet), reassembled row decodes to exactly the written cells, following row / terminator / PING reply intact. Every other check's runs also pass the packet reader (rule 'framing'). Distinct = plan signature (k, d via size classes, cell split, write schedule)."
     }
     fn jobs(&self, tier: Tier) -> u64 {
+        // the giants first, then the framing of ordinary and medium-sized messages under TLS
         match tier {
-            Tier::Quick => 160,
-            Tier::Thorough => 3000,
+            Tier::Quick => 160 + 12_000,
+            Tier::Thorough => 3000 + 300_000,
         }
     }
     fn budget_s(&self, tier: Tier) -> u64 {
@@ -417,7 +552,11 @@ impl Check for C04 {
         }
     }
     fn run_job(&self, rng: &mut Rng, tier: Tier, job: u64, ctx: &mut JobCtx<'_>) {
-        let plan = gen_c04(rng, tier, job);
+        let giants = match tier {
+            Tier::Quick => 160,
+            Tier::Thorough => 3000,
+        };
+        let plan = if job < giants { gen_c04(rng, tier, job) } else { gen_c04_tls(rng) };
         ctx.eval(&plan);
     }
     fn owns(&self, rule: &str) -> bool {
@@ -627,6 +766,23 @@ fn c15_plan(cells: Vec<(Cell, u8, bool)>, r: &mut Rng) -> Plan {
             }),
         },
     ];
+    let mut cmds = cmds;
+    if r.chance(1, 4) {
+        // history: the execution before this one returned a resultset with the same column
+        // names and types but the opposite signedness in every column (and no rows). What the
+        // connection remembers of it must not leak into how this one is advertised or encoded.
+        let mut ghost = cmds[1].clone();
+        if let Act::Program(pg) = &mut ghost.act {
+            pg.probe_cells = false;
+            if let Some(Unit::Rows(ru)) = pg.units.first_mut() {
+                for c in &mut ru.cols {
+                    c.flags ^= 0x20;
+                }
+                ru.rows.clear();
+            }
+        }
+        cmds.insert(1, ghost);
+    }
     let mut p = Plan::basic(cmds);
     p.reads = gen_reads(r);
     p
@@ -1677,20 +1833,20 @@ impl Check for C20 {
         }
     }
     fn run_job(&self, rng: &mut Rng, _tier: Tier, job: u64, ctx: &mut JobCtx<'_>) {
-        let plan = gen_c20(rng, job);
+        let mut plan = gen_c20(rng, job);
+        if rng.chance(1, 25) && plan.faults.is_empty() {
+            // the other way to spin: a transport that stops accepting bytes (write returns
+            // Ok(0) from some operation on, e.g. a full fixed-size sink) must end the run
+            plan.faults.push(Fault {
+                at: FaultAt::Op(rng.below(40)),
+                kind: FaultKind::ZeroWrite,
+                persistent: true,
+            });
+        }
         ctx.eval(&plan);
     }
     fn owns(&self, rule: &str) -> bool {
         ["panic", "framing", "wedged"].contains(&rule)
-    }
-    fn extra_judge(&self, _plan: &Plan, out: &Outcome, vs: &mut Vec<Violation>) {
-        if out.w.op_budget_exceeded {
-            vs.push(v(
-                "wedged",
-                "operation budget",
-                format!("run performed more than {} transport operations", crate::stream::OP_BUDGET),
-            ));
-        }
     }
     fn assumptions(&self) -> Vec<&'static str> {
         vec![
